@@ -303,7 +303,7 @@ class ConnectHelper(Loggable):
     def data_required(self):
         """dict: If data to push is still required."""
         return {
-            name: not pushed and name not in self._out_data_cache
+            name: not pushed and not self._is_cached(name, self._out_data_cache)
             for name, pushed in self.data_pushed.items()
         }
 
@@ -313,7 +313,7 @@ class ConnectHelper(Loggable):
         return {
             name: inf is None
             and self.inputs[name].info is None
-            and name not in self._in_info_cache
+            and not self._is_cached(name, self._in_info_cache)
             and name not in self._in_info_rules
             for name, inf in self.in_infos.items()
         }
@@ -323,10 +323,14 @@ class ConnectHelper(Loggable):
         """dict: If output infos to push are still required."""
         return {
             name: not pushed
-            and name not in self._out_info_cache
+            and not self._is_cached(name, self._out_info_cache)
             and name not in self._out_info_rules
             for name, pushed in self.infos_pushed.items()
         }
+
+    def _is_cached(self, name, cache):
+        # without caching nothing offered in a previous call is kept for the next one
+        return self._cache and name in cache
 
     def connect(self, start_time, exchange_infos=None, push_infos=None, push_data=None):
         """Exchange the info and data with linked components.
